@@ -38,13 +38,14 @@ def by_core(table, default=None):
 
 class Prop:
     def __init__(self, pid, module, cores, runs, tie_eq=eq_lines, oracle=eq_lines, nontrivial=None,
-                 spec_total=True, level='proof', assumptions=(), trusted=(), classes=None, extra_checks=()):
+                 spec_total=True, level='proof', assumptions=(), trusted=(), classes=None, extra_checks=(), unspecified=None):
         self.pid, self.module, self.cores, self.runs = pid, module, cores, runs
         self.tie_eq, self.oracle, self.nontrivial = tie_eq, oracle, nontrivial or (lambda op, out: True)
         self.spec_total, self.level = spec_total, level
         self.assumptions, self.trusted = list(assumptions), list(trusted)
         self.classes = classes or {}       # known-finding class name -> predicate(op line) -> bool
         self.extra_checks = list(extra_checks)
+        self.unspecified = unspecified   # predicate(prefix): episode is in territory the properties leave open
 
 
 COMMON_TRUSTED = [
